@@ -413,6 +413,14 @@ func C10(run *Run) {
 						run.Evals++
 					}
 				}
+				// BatchCheck carries one preference for all its items
+				for _, bev := range batchHC(ctx, env, combo, reqs) {
+					if strings.Contains(combo, ":v2") && !IsPlainSubj(bev.U) {
+						continue
+					}
+					rec.Add(bev)
+					run.Evals++
+				}
 				q := reqs[0]
 				lu := &ListUsersEv{Eng: combo, O: q.O, R: q.R, FT: "user", Ctx: q.Ctx, HC: true}
 				env.RunListUsers(ctx, lu)
